@@ -869,7 +869,38 @@ def rule_k(ctx: Ctx) -> None:
     ctx.min_instances("emission_sites", n_add, 15)
 
 
-RULES = [rule_a, rule_b, rule_c, rule_d, rule_e, rule_f, rule_g, rule_h, rule_i, rule_j, rule_k]
+def rule_l(ctx: Ctx) -> None:
+    ctx.rule("C13.l", "the source text accompanies its tokens: a function that holds both a token list and the text it was scanned from (a parameter `sql`) and hands the tokens on to a "
+                      "parser entry point (parse / parse_into / _parse of another object, of super() or of self) hands the text on as well — error snippets and highlights are slices "
+                      "of the text the parser was given, so a dropped argument leaves them empty")
+    n = 0
+    for f in ctx.repo.all_funcs():
+        if "sql" not in f.params:
+            continue
+        m = f.module
+        token_params = {p for p in f.params if "token" in p.lower()}
+        for c in walk_no_nested(f.node):
+            if not (isinstance(c, ast.Call) and isinstance(c.func, ast.Attribute) and c.func.attr in ("parse", "parse_into", "_parse")):
+                continue
+            args = list(c.args) + [k.value for k in c.keywords]
+            carries_tokens = any(
+                (isinstance(x, ast.Name) and x.id in token_params) or (isinstance(x, ast.Call) and (call_name(x) or "").split(".")[-1] == "tokenize")
+                for a in args for x in ast.walk(a)
+            )
+            if not carries_tokens:
+                continue
+            n += 1
+            where = f.key
+            if any(isinstance(a, ast.Name) and a.id == "sql" for a in args):
+                ctx.ok(f"{where}|{norm(c, 80)}", None)
+            else:
+                ctx.fail(m, c, where, c, f"`{norm(c, 90)}` hands the tokens to a parser entry point without the text `sql` they were scanned from: every ParseError it builds has an "
+                                         f"empty snippet and highlight (its sibling calls pass the text)")
+    ctx.count("token_handovers", n)
+    ctx.min_instances("token_handovers", n, 6)
+
+
+RULES = [rule_a, rule_b, rule_c, rule_d, rule_e, rule_f, rule_g, rule_h, rule_i, rule_j, rule_k, rule_l]
 EXPLANATION = (
     "Representation invariants of the scanner cursor checked symbolically on every block that writes _current (linear "
     "normal form of offsets with local resolution, so the str.find and alnum fast paths are covered), the token stamp, "
